@@ -86,6 +86,43 @@ Proof.
   - rewrite (mirror_invariant V vadd vzero w bias A C Z0 b kw kb wtm Hw Hb), (nonKingCount_mirror b). reflexivity.
 Qed.
 
+(** ---- scaleClipPack: the model of the generic C++ loop equals the specification ---- *)
+Lemma clipLane_spec x : 0 <= x < M16 -> clipLaneG x = scaleClipSpec (s16val x).
+Proof.
+  intros Hx. unfold clipLaneG, scaleClipSpec, clampZ, clipLo, clipHi, l1Shift.
+  rewrite Z.shiftr_div_pow2 by lia. change (2 ^ 2) with 4.
+  set (s := s16val x).
+  assert (Hs : -32768 <= s < 32768).
+  { unfold s, s16val, M16 in *. destruct (Z.ltb_spec x 32768); lia. }
+  destruct (Z.ltb_spec s 0) as [Hneg|Hpos].
+  - assert (s / 4 < 0) by (apply Z.div_lt_upper_bound; lia).
+    destruct (Z.ltb_spec (s / 4) 0); [reflexivity|lia].
+  - assert (0 <= s / 4) by (apply Z.div_pos; lia).
+    destruct (Z.ltb_spec (s / 4) 0); [lia|].
+    destruct (Z.leb_spec (128 * 4) s) as [Hhi|Hlo].
+    + assert (128 <= s / 4) by (apply Z.div_le_lower_bound; lia).
+      destruct (Z.ltb_spec 127 (s / 4)); [reflexivity|lia].
+    + assert (s / 4 < 128) by (apply Z.div_lt_upper_bound; lia).
+      destruct (Z.ltb_spec 127 (s / 4)); [lia|reflexivity].
+Qed.
+
+(** the whole vector handed to layer 2 is the specification applied lane by lane to the two
+    accumulators, side to move first: a pure function of the accumulator pair *)
+Lemma l1OutClipped_spec n wtm (st : state16 n) :
+  l1OutClipped n wtm st =
+  map (fun x => scaleClipSpec (s16val x)) (lanes n (l1Out (getLin wtm (cur st))))
+  ++ map (fun x => scaleClipSpec (s16val x)) (lanes n (l1Out (getLin (negb wtm) (cur st)))).
+Proof.
+  unfold l1OutClipped. f_equal; apply map_ext_in; intros x Hx; unfold clipLane; apply clipLane_spec.
+  - exact (wfv_lanes n _ (proj2_sig (l1Out (getLin wtm (cur st)))) x Hx).
+  - exact (wfv_lanes n _ (proj2_sig (l1Out (getLin (negb wtm) (cur st)))) x Hx).
+Qed.
+
+Example clip_boundaries :
+  map clipLaneG [65535; 65532; 0; 3; 4; 508; 511; 512; 1023; 1024; 32767; 32768]
+  = [0; 0; 0; 0; 1; 127; 127; 127; 127; 127; 127; 0].
+Proof. vm_compute. reflexivity. Qed.
+
 (** ---- examples (non-vacuity) ---- *)
 Definition startList : list Z :=
   [3;5;4;2;1;4;5;3; 6;6;6;6;6;6;6;6; 0;0;0;0;0;0;0;0; 0;0;0;0;0;0;0;0;
